@@ -263,7 +263,9 @@ def structured_cases(rng, lzo):
             cases.append(("copy-guard", fb1(x % 25, y % 12, w % 25, h % 12, 1, struct.pack(">HH", 1, 1))))
             # RRE sub-rectangle outside the framebuffer: must be ignored by CheckRect
             cases.append(("rre-sub", fb1(0, 0, 20, 10, 2, struct.pack(">I", 1) + b"\x01" * bp + b"\x02" * bp + struct.pack(">HHHH", x, y, w, h))))
-        for n in [0, 1, E.ENC and (307200 // (4 + bp)), 307200 // (4 + bp) + 1, 1 << 31, (1 << 32) - 1]:
+        # counts whose product with the entry size wraps 2^32 (0x20000000*8, 0x80000000*6, 0x33333334*5, ...)
+        wraps = [0x20000000, 0x20000001, 0x80000000, 0x2AAAAAAB, 0x33333334, 0x55555556, 0x40000000, 0x10000000, 0x1999999A]
+        for n in [0, 1, 307200 // (4 + bp), 307200 // (4 + bp) + 1, 1 << 31, (1 << 32) - 1] + wraps:
             cases.append(("corre-count", fb1(0, 0, 20, 10, 4, struct.pack(">I", n) + b"\x01" * bp + (b"\x02" * bp + bytes([1, 1, 2, 2])) * min(n, 4))))
             cases.append(("rre-count", fb1(0, 0, 20, 10, 2, struct.pack(">I", n) + b"\x01" * bp + (b"\x02" * bp + struct.pack(">HHHH", 1, 1, 2, 2)) * min(n, 4))))
         for ln in [0, 1, (1 << 20) - 1, 1 << 20, (1 << 20) + 1, 1 << 31, (1 << 32) - (1 << 20), (1 << 32) - 1]:
@@ -273,9 +275,31 @@ def structured_cases(rng, lzo):
             cases.append(("cursor-size", fb1(0, 0, cw, ch, E.ENC["xcursor"], b"\x00" * 64)))
         for (nw, nh) in [(0, 0), (1, 0), (0, 1), (1, 1), (2048, 1024), (2048, 1025), (65535, 65535), (65535, 1)]:
             cases.append(("resize", fb1(0, 0, nw, nh, E.ENC["newfbsize"], b"") + E.fbu([struct.pack(">HHHHI", 0, 0, min(nw, 4), min(nh, 4), 0) + b"\x07" * (min(nw, 4) * min(nh, 4) * bp)])))
+        # cursor shape: empty after non-empty, repeatedly, then a truncated one (free/NULL discipline)
+        def cur(w, h, rich=True):
+            body = (b"\x11" * (w * h * bp) if rich else b"\x01\x02\x03\x04\x05\x06" + b"\xaa" * ((w + 7) // 8 * h)) + b"\x55" * ((w + 7) // 8 * h)
+            return E.fbu([struct.pack(">HHHHI", 0, 0, w, h, E.ENC["richcursor" if rich else "xcursor"]) + (body if w * h else b"")])
+        cases.append(("cursor-seq", cur(8, 8) + cur(0, 0) + cur(0, 7, False) + cur(9, 3, False) + cur(5, 0) + cur(4, 4) + cur(0, 0, False)))
+        cases.append(("cursor-seq", cur(8, 8) + cur(0, 0) + cur(16, 16)[:40]))
+        cases.append(("cursor-seq", cur(8, 8) + cur(9, 9, False)[:30]))
+        cases.append(("cursor-seq", cur(8, 8) + cur(2000, 2) + cur(3, 3)))
         head2 = [head[0].replace("fbmode=1", "fbmode=2")] + head[1:]
         for tag, m in cases:
             out.append({"script": build_script(head2, "eof", hs, [], m), "kind": "guard", "expect_false": None, "tag": "guard:" + tag})
+        # ReadFromRFBServer: a request of <= 8192 bytes served by >= 2 read() calls (buffered branch) and
+        # a request > 8192 bytes (unbuffered branch), complete and with the stream ending in the middle
+        BW, BH = 300, 40
+        hsb = E.handshake(F["rgb888le"], BW, BH, b"g")
+        rows = bytes((i * 7 + 3) & 0xFF for i in range(BW * BH * bp))
+        big = E.fbu([struct.pack(">HHHHI", 0, 0, BW, BH, 0) + rows])
+        small = E.fbu([struct.pack(">HHHHI", 0, 0, BW, 6 // bp + 1, 0) + rows[:BW * (6 // bp + 1) * bp]])
+        for seg in ("0", "1000", "8192", "8191,1", "4096", "100000"):
+            for eos in ("eof", "eagain"):
+                hd = [head2[0] if False else head[0].replace("fbmode=1", "fbmode=2"), "seg " + seg]
+                out.append({"script": build_script(hd, eos, hsb, [], big + small), "kind": "guard", "expect_false": False, "tag": "guard:read-branches"})
+                for cut in (len(big) - 1, len(big) // 2, 8192 + 30, 20, len(big) + 17):
+                    out.append({"script": build_script(hd, eos, hsb, [], (big + small)[:cut]), "kind": "guard", "expect_false": True,
+                                "tag": "guard:read-branches-eof"})
         for ln in [0, 1, (1 << 20), (1 << 20) + 1, 1 << 31, (1 << 32) - 1]:
             h2 = hs[:18 + 20] + struct.pack(">I", ln) + b"n" * min(ln, 1 << 20)
             out.append({"script": build_script(head2, "eof", h2, [], b""), "kind": "guard", "expect_false": None, "tag": "guard:name-cap"})
